@@ -367,6 +367,7 @@ def explore(
     cov_counts: collections.Counter = collections.Counter()
     refuted: list[dict] = []
     refuted_sigs: collections.Counter = collections.Counter()
+    stored_clauses: set = set()
     unknown_samples: list[str] = []
     samples: list[dict] = []
     pcs: list[Any] = []
@@ -460,7 +461,8 @@ def explore(
                 if status is not None:
                     want_model = (
                         status == VerificationStatus.REFUTED
-                        and len(refuted) < max_refuted
+                        # a bounded number of counterexamples, but at least one per distinct clause
+                        and (len(refuted) < max_refuted or (viol is not None and viol[0] not in stored_clauses))
                     ) or (
                         status == VerificationStatus.CONFIRMED
                         and (len(samples) < n_samples or rng.random() < 0.002)
@@ -531,6 +533,7 @@ def explore(
                 refuted.append(
                     {"inputs": model, "clause": viol[0], "detail": viol[1]}
                 )
+                stored_clauses.add(viol[0])
         if exhausted:
             stop_reason = "exhausted"
             break
